@@ -210,6 +210,8 @@ CHECKS["C12"] = {
     "technique": "bounded-exhaustive enumeration against a reference interpreter + rapid-generated group assembly programs",
     "nontrivial_floor": 1000,
     "units": [
+        {"name": "wire", "run": "^TestC12Wire$", "kind": "plain", "shards": {"quick": 1, "thorough": 4}},
+        {"name": "wire-nopool", "run": "^TestC12Wire$", "kind": "plain", "shards": {"quick": 1, "thorough": 4}, "env": {"HERTZ_DISABLE_REQUEST_CONTEXT_POOL": "true"}},
         {"name": "chains", "run": "^TestC12Chains$", "kind": "plain", "shards": {"quick": 4, "thorough": 16}},
         {"name": "assembly", "run": "^TestC12Assembly$", "kind": "rapid", "checks": {"quick": 4000, "thorough": 80000}, "shards": {"quick": 4, "thorough": 16}},
     ],
